@@ -301,7 +301,7 @@ def features(run):
 # ------------------------------------------------------------------------------------------------
 # the schedule set
 # ------------------------------------------------------------------------------------------------
-def schedule_plan(ctx, progs):
+def schedule_plan(ctx, progs, shared_later=None):
     """list of (label, relation, schedule, where) ; where = 'A' (sequentially in the reference folder) or
     'copy' (on a copy of the reference folder incl. its generator folder, run concurrently)"""
     n = len(progs)
@@ -330,7 +330,11 @@ def schedule_plan(ctx, progs):
             subs.append([progs[0]] + others[1:])
             subs.append([others[-1], progs[0], others[0]])
     elif len(subs) > 2:
-        subs = ctx.rng.sample(subs, 2)
+        # prefer the programs that share a method label with an EARLIER program of the reference order: run
+        # without that earlier program they show state leaking through label-keyed structures
+        first = [[progs[0], o] for o in others if o in (shared_later or [])][:2]
+        rest = [x for x in subs if x not in first]
+        subs = first + ctx.rng.sample(rest, max(0, 2 - len(first)))
     for i, s in enumerate(subs):
         plan.append((f"subset{i}", "subset", {"order": s, "debug": True, "processes": 1}, "copy"))
     return base, plan
@@ -381,7 +385,15 @@ def check_monitor(ctx, run, tables, label):
 
 def differential(ctx, cfg, tables, repo=None, label="cfg"):
     progs = [p["name"] for p in cfg["programs"]]
-    base, plan = schedule_plan(ctx, progs)
+    seen_labels, shared_later = set(), []
+    for p in cfg["programs"]:
+        if any(l in seen_labels for l in p["methods"]):
+            shared_later.append(p["name"])
+        seen_labels.update(p["methods"])
+    if shared_later:
+        ctx.nontrivial.add("shared-method-label")
+        ctx.count("configs_with_shared_method_label")
+    base, plan = schedule_plan(ctx, progs, shared_later)
     root = tempfile.mkdtemp(prefix="ldarverif_c12_")
     results = []
     try:
